@@ -39,10 +39,13 @@ static void ld_free(void)
    nld = 0;
    }
 
+unsigned char *bvp_last_msg = NULL; int bvp_last_msg_len = -1;
+
 void dump_reset(void)
    {
    int i;
    ld_free();
+   free(bvp_last_msg); bvp_last_msg = NULL; bvp_last_msg_len = -1;
    for (i = 0; i < ndumps; i++) free(dumps[i]);
    ndumps = 0;
    bufr_set_trimzero(1);
@@ -86,6 +89,9 @@ static void fmt_msg(BUFR_Dataset *d, int compress)
    rc = bufr_memwrite_message((char *)buf, cap, m);
    if (rc < 0) fprintf(bvp_out, "werr");
    else bvp_print_hex(buf, (size_t)rc);
+   /* kept for `ds.decodemsg @` (C07 chains: decode the message just written) */
+   free(bvp_last_msg); bvp_last_msg = NULL; bvp_last_msg_len = -1;
+   if (rc >= 0) { bvp_last_msg = buf; bvp_last_msg_len = (int)rc; buf = NULL; }
    free(buf);
    bufr_free_message(m);
    }
